@@ -170,6 +170,10 @@ def instances(tier):
     from . import xval
     out += xval.instances("C01", tier)
     if tier == "thorough":
+        from ..shapes import enumerate_trees
+        for sid, shape in enumerate_trees(4).items():
+            out.append(Instance("C01", "sys_common:s_run", dict(shape=shape, oracle="c01"), name="S/enum4/" + sid, uf=True,
+                                cover=["solved"], weight=8, max_paths=6000, time_limit=3000))
         for sid, shape in pair_cover().items():
             out.append(Instance("C01", "sys_common:s_run", dict(shape=shape, oracle="c01"), name="S/pair/" + sid, uf=True,
                                 cover=["solved"], weight=15, max_paths=6000, time_limit=3000))
